@@ -2998,6 +2998,8 @@ def _late_bound( tree ):
                 called_here = True
             if isinstance( a, ast.For ) and inner not in ( a.iter, a.target ):
                 loops.append( a )
+            if isinstance( a, ( ast.ListComp, ast.SetComp, ast.DictComp )) and inner not in a.generators:	# [ lambda x: f( x, k ) for k in ks ]: the same late lookup
+                loops.extend( a.generators )
             inner = a
             a = par.get( a )
         if not loops or called_here:
@@ -3041,9 +3043,9 @@ def w_latebind( ctx ):
     if scanned < 300:
         raise AnalysisError( 'W-LATEBIND: only %d functions / lambdas scanned' % scanned )
     # positive fixture: the rule's own pattern matches the known-bad shape, and not its repaired twin
-    fx = ast.parse( 'T = {}\nfor k, lo, hi in rows:\n    T[k] = lambda x: check( x, lo, hi )\n' )
-    ok = ast.parse( 'T = {}\nfor k, lo, hi in rows:\n    T[k] = lambda x, lo=lo, hi=hi: check( x, lo, hi )\n' )
-    if len( _late_bound( fx )) != 1 or _late_bound( ok ):
+    fx = ast.parse( 'T = {}\nfor k, lo, hi in rows:\n    T[k] = lambda x: check( x, lo, hi )\nU = [ lambda x: check( x, lo, hi ) for lo, hi in rows ]\n' )
+    ok = ast.parse( 'T = {}\nfor k, lo, hi in rows:\n    T[k] = lambda x, lo=lo, hi=hi: check( x, lo, hi )\nU = [ ( lambda x, lo=lo: x > lo ) for lo, hi in rows ]\nV = [ ( lambda y: y + lo )( 1 ) for lo in rows ]\n' )
+    if len( _late_bound( fx )) != 2 or _late_bound( ok ):
         raise AnalysisError( 'W-LATEBIND: fixture not recognised' )
     res.ok( ctx.src( files[0] ), None, 'no callable made in a loop reads the loop\'s variables late ( %d functions and lambdas in %d files scanned; fixture matched )' % ( scanned, len( files )))
     return res
